@@ -343,6 +343,19 @@ func (c *checkCtx) reportSched(v Violation, extraDetail string) {
 	}
 	ok, info := c.tryPlanN(&p, v.Key, 10)
 	if !ok {
+		// the plan alone does not show it: the finding depends on what the worker
+		// process had done before. The worker is seeded: generating and executing
+		// the same slice of plans again, in a fresh process, must find the same
+		// violation at the same index.
+		if ok2, info2 := c.confirmSchedSlice(&p, v.Key); ok2 {
+			v.Replay = mustMarshal(&p)
+			if extraDetail != "" {
+				v.Detail = extraDetail
+			}
+			v.Detail += " [depends on the calls the process made before this plan; " + info2 + "]"
+			c.reportConfirmed(v)
+			return
+		}
 		c.infraf("violation %s (plan %d) did not reproduce in a fresh process; not reported: %s", v.Key, p.Index, tail(info, 1200))
 		return
 	}
@@ -353,6 +366,29 @@ func (c *checkCtx) reportSched(v Violation, extraDetail string) {
 	}
 	v.Detail += fmt.Sprintf(" [minimised plan: %d callers, %d ops, %d change points, policy %s]", len(min.Tasks), min.NOps(), len(min.Points), min.Policy)
 	c.report(v)
+}
+
+// confirmSchedSlice re-executes, in a fresh process, the slice of plans the
+// finding in-process worker had run up to and including plan p.
+func (c *checkCtx) confirmSchedSlice(p *plan.SchedPlan, key string) (bool, string) {
+	if p.SliceStride <= 0 {
+		return false, ""
+	}
+	bin, env := c.schedBin("plain")
+	args := []string{"sched-genexec", "-k", strconv.Itoa(p.SliceK), "-seed", strconv.FormatUint(p.Seed, 10), "-from", strconv.Itoa(p.SliceFrom),
+		"-to", strconv.Itoa(p.Index + 1), "-stride", strconv.Itoa(p.SliceStride)}
+	w := runWorker(bin, args, env, 30*time.Minute)
+	for _, d := range w.Docs {
+		if docType(d) != "violation" {
+			continue
+		}
+		var got Violation
+		json.Unmarshal(mustMarshal(d), &got)
+		if got.Key == key && got.Index == p.Index {
+			return true, "reproduced by running the seeded slice again in a fresh process: simworker " + strings.Join(args, " ")
+		}
+	}
+	return false, ""
 }
 
 // runSchedHot generates and executes plans in the same worker processes.
